@@ -21,6 +21,7 @@ RULE = ("random call sequences of 30 (quick) / 200 (thorough) operations over th
         "place; after EVERY call the live-task table of both stations must equal the model (<= 1 task per producer, right "
         "id / payload / period / remote flag); histories end with network.disconnect(). Signature = (operation, producer "
         "state before, bus flavour); non-trivial = the producer was already running when the call was made.")
+RULE += (" " + 'Widened later: maps of either direction, bit-field variables, payloads recurring across stop/start, refused writes to 0x1017, restartable fixed-frame tasks, frame format in the task tables.')
 ASSUMPTIONS = ["the harness never mutates PdoMap.data behind the API (assignments go through PdoVariable.raw / update())",
                "period equality is exact float equality of the value given to the API (ms/1000 for the heartbeat)"]
 REQUIRED = {"table_comparisons": 1000, "ticks": 50, "disconnects": 10}
